@@ -58,7 +58,10 @@ func VerifHarness_C17_GenerateConverters() {
 	}
 	global := config.RawLines{Location: "cli", Lines: []string{nondetAtom("global")}}
 
-	err := GenerateConverters(&GenerateConfig{PackagePatterns: []string{"./..."}, WorkingDir: cwd, BuildTags: tags, OutputBuildConstraint: constraint, Global: global})
+	// the package patterns of the command line: one, a wildcard followed by a sibling whose name starts alike,
+	// a repeated pattern, a wildcard followed by a directory outside of it
+	patterns := [][]string{{"./..."}, {"./conv/...", "./convx"}, {"./a", "./b", "./a"}, {"./...", "../sibling"}, {"./conv/...", "./conv/sub", "./convx/..."}}[nondetChoice("patterns", 5)]
+	err := GenerateConverters(&GenerateConfig{PackagePatterns: patterns, WorkingDir: cwd, BuildTags: tags, OutputBuildConstraint: constraint, Global: global})
 
 	failed := parseFails || configFails || genFails
 	verifAssert("error-iff-a-stage-failed", (err != nil) == failed)
@@ -94,6 +97,15 @@ func VerifHarness_C17_GenerateConverters() {
 	// C16: tags / constraint reach every stage unchanged
 	pd := verifEffectArg("call:github.com/jmattheis/goverter/comments.ParseDocs", 0, 0).(comments.ParseDocsConfig)
 	verifAssert("build-tags-reach-doc-scan", pd.BuildTags == tags && pd.WorkingDir == cwd)
+	for _, p := range patterns {
+		found := false
+		for _, q := range pd.PackagePattern {
+			if q == p {
+				found = true
+			}
+		}
+		verifAssert("every-package-pattern-reaches-the-doc-scan", found)
+	}
 	raw := verifEffectArg("call:github.com/jmattheis/goverter/config.Parse", 0, 0).(*config.Raw)
 	verifAssert("build-tags-reach-package-loader", raw.BuildTags == tags && raw.WorkDir == cwd)
 	verifAssert("global-lines-reach-config", len(raw.Global.Lines) == 1 && raw.Global.Lines[0] == global.Lines[0])
